@@ -17,7 +17,7 @@ Q = "twisted.web.http."
 QC = Q + "HTTPChannel"
 QR = Q + "Request"
 
-TECHNIQUE = 'typestate dominance + who-may-write + call-graph closure on inlined view; guard valuations; bounded interpreted histories'
+TECHNIQUE = 'typestate dominance + who-may-write + call-graph closure on inlined view; CFG reachability after the hand-over call; guard valuations; bounded interpreted histories'
 EXPLANATION = (
     'Structural and finite-exhaustive rules run on a normalised view (private helpers inlined at their call sites, temporaries followed by partial evaluati'
     'on, guard clauses read through the CFG) and abstain with a note when a shape is not recognised; the bounded layer (source interpreted by an AST interp'
@@ -35,7 +35,10 @@ EXPLANATION = (
     "UNDED ONLY: a pause/resume cycle at every point of a request's life leaves the producer resumed; Deferreds registered re-entrantly while firing fire o"
     'nce; order and integrity of the responses on the wire for pipelined histories, re-entrant callbacks, connection loss points (pipeline/, notify-scenari'
     'o/) - these are statements about interleavings of several calls, for which the per-method structural rules give the ingredients but not the compositio'
-    "n. Not decided: byte order under real transports' timing."
+    "n. Not decided: byte order under real transports' timing. "
+    "STRUCTURAL hand-over (handover/): channel.requestDone(request) replays the buffered pipelined bytes synchronously, so in every Request method that reaches it "
+    "(closure over self.<method>() calls) no CFG node after the call uses self.channel / self.transport or calls a Request method that does (a leftover producer is "
+    "unregistered before, never after, the next request is handed over)."
 )
 ASSUMPTIONS = [
     "the model transport delivers every byte it is given and never re-enters the channel",
